@@ -13,7 +13,7 @@ pub fn def() -> PropDef {
         job_level,
         run_job,
         replay,
-        rule: "configs: 7 tap-hold variants (tap-hold, -press, -release, -press-timeout, -release-timeout, -release-keys (b), -except-keys (b)) x hold timeout H in {3,6} x tap-repress window in {0,3} x concurrent-tap-hold {no,yes}; a = the tap-hold (tap x, hold lsft, timeout-action lctl), b = plain key listed in the key list, c = plain key. Histories: EVERY physically consistent schedule of N events over press/release of a,b,c, each preceded by a gap from {0,1,H-1,H,H+1} (quick N=4, thorough N=5/6), then all keys released and settled. Second family: two tap-hold keys (a, b) + plain c, all schedules of N-1 events. Oracle on every execution: (E) exactly one decision output (tap key / hold key / timeout key) per press of a tap-hold key; (B) the sequence of press outputs, mapped back to physical keys, equals the sequence of physical presses (nothing lost, nothing before the decision, original order); (T) for every press that arrives with an empty queue and no pending decision: decision kind and tick equal TapHoldSpec (config.adoc): first documented trigger seen before the timeout, else own release before the timeout -> tap, else hold/timeout action exactly at the timeout tick; where a variant trigger and the own release become visible in the same millisecond either order is accepted; re-press within +-1 tick of the tap-repress window is a don't-care.",
+        rule: "configs: 7 tap-hold variants (tap-hold, -press, -release, -press-timeout, -release-timeout, -release-keys (b), -except-keys (b)) x hold timeout H in {3,6} x tap-repress window in {0,3} x concurrent-tap-hold {no,yes}; a = the tap-hold (tap x, hold lsft, timeout-action lctl), b = plain key listed in the key list, c = plain key. Histories: EVERY physically consistent schedule of N events over press/release of a,b,c, each preceded by a gap from {0,1,H-1,H,H+1} (quick N=4, thorough N=5/6), then all keys released and settled. Second family: two tap-hold keys (a, b) + plain c, all schedules of N-1 events. Oracle on every execution: (E) exactly one decision output (tap key / hold key / timeout key) per press of a tap-hold key; (B) the sequence of press outputs, mapped back to physical keys, equals the sequence of physical presses (nothing lost, nothing before the decision, original order); (T) for every press that arrives with an empty queue and no pending decision (and, for plain tap-hold and the decision kind only, for presses that find up to two plain-key events ahead of them in the queue: the hold timeout counts from the arrival of the press): decision kind and tick equal TapHoldSpec (config.adoc): first documented trigger seen before the timeout, else own release before the timeout -> tap, else hold/timeout action exactly at the timeout tick; where a variant trigger and the own release become visible in the same millisecond either order is accepted; re-press within +-1 tick of the tap-repress window is a don't-care.",
         assumptions: &[
             "timing pinned as: an event arriving after n completed ticks is seen at tick n+1; hold fires H ticks after the press is dequeued (H-1 with concurrent-tap-hold); tap iff the release is seen before that tick",
             "fewer than 32 pending events",
@@ -143,6 +143,13 @@ enum Kind {
 /// TapHoldSpec: allowed (kinds, stamp) for the press at index `pi` of `ins` (a simple press).
 /// Returns None when the spec leaves the case open (don't-care).
 fn expected(spec: &Spec, ins: &[In], pi: usize) -> Option<(Vec<Kind>, u64)> {
+    expected_q(spec, ins, pi, 0)
+}
+
+/// The same for a press that found `q` events of plain keys ahead of it in the queue: it is dequeued q
+/// ticks later (one event per tick), so everything after it becomes visible q ticks later, while the hold
+/// timeout still counts from the arrival of the press (the code compensates for the time in the queue).
+fn expected_q(spec: &Spec, ins: &[In], pi: usize, q: u64) -> Option<(Vec<Kind>, u64)> {
     let p = ins[pi];
     let t0 = p.t;
     let heff = if spec.conc { spec.h as u64 - 1 } else { spec.h as u64 };
@@ -173,8 +180,8 @@ fn expected(spec: &Spec, ins: &[In], pi: usize) -> Option<(Vec<Kind>, u64)> {
     // The press is dequeued at tick t0+1; the pending decision looks at the queue from tick t0+2 on.
     // An event arriving at time t is therefore seen at tick vis(t) = max(t+1, t0+2); the timeout
     // fires at tick t0+1+heff. A decision taken at tick v is stamped v-1 in the output trace.
-    let vis = |t: u64| (t + 1).max(t0 + 2);
-    let timeout_tick = t0 + 1 + heff;
+    let vis = |t: u64| (t + 1).max(t0 + 2 + q);
+    let timeout_tick = (t0 + 1 + heff).max(t0 + 2 + q);
     let mut ticks: Vec<u64> = after.iter().map(|e| vis(e.t)).collect();
     ticks.dedup();
     let listed = |k: usize| k == 1;
@@ -278,6 +285,8 @@ fn expected(spec: &Spec, ins: &[In], pi: usize) -> Option<(Vec<Kind>, u64)> {
 struct Exec {
     ins: Vec<In>,
     simple: Vec<bool>,
+    /// Some(q): no decision pending, but q events of plain keys were still queued when the event arrived
+    qdelay: Vec<Option<u64>>,
     decisions: Vec<(u64, Kind, usize)>, // (stamp, kind, key 0/1)
     press_outputs: Vec<usize>,          // physical key attributed to each press output, in output order
     press_inputs: Vec<usize>,
@@ -290,6 +299,7 @@ fn execute(spec: &Spec, cfg: &str, sched: &[(u32, Ev)], first_new: usize, st: &m
     let keys = [kc("a"), kc("b"), kc("c")];
     let mut ins = vec![];
     let mut simple = vec![];
+    let mut qdelay: Vec<Option<u64>> = vec![];
     let mut down = [false; 3];
     let mut now: u64 = 0;
     let mut step = |s: &mut Sim, e: Ev| s.step(e).map_err(|m| (panic_signature(&m), m));
@@ -306,6 +316,14 @@ fn execute(spec: &Spec, cfg: &str, sched: &[(u32, Ev)], first_new: usize, st: &m
         let key = keys.iter().position(|k| *k == code).unwrap();
         let l = s.k.layout.b();
         simple.push(l.queue.is_empty() && l.waiting.is_none() && l.action_queue.is_empty());
+        {
+            let a_code = keys[0];
+            let only_plain = l.queue.iter().all(|qe| match qe.event() {
+                kanata_keyberon::layout::Event::Press(_, j) | kanata_keyberon::layout::Event::Release(_, j) => j != a_code,
+            });
+            let n = l.queue.len() as u64;
+            qdelay.push(if !l.queue.is_empty() && n <= 2 && only_plain && l.waiting.is_none() && l.action_queue.is_empty() && !spec.two { Some(n) } else { None });
+        }
         ins.push(In { t: now, press, key });
         down[key] = press;
         step(&mut s, *ev)?;
@@ -321,6 +339,7 @@ fn execute(spec: &Spec, cfg: &str, sched: &[(u32, Ev)], first_new: usize, st: &m
             now += 1;
             let l = s.k.layout.b();
             simple.push(l.queue.is_empty() && l.waiting.is_none());
+            qdelay.push(None);
             ins.push(In { t: now, press: false, key: k });
             step(&mut s, Ev::R(keys[k]))?;
         }
@@ -351,7 +370,7 @@ fn execute(spec: &Spec, cfg: &str, sched: &[(u32, Ev)], first_new: usize, st: &m
         }
     }
     let press_inputs = ins.iter().filter(|e| e.press).map(|e| e.key).collect();
-    Ok(Exec { ins, simple, decisions, press_outputs, press_inputs, trace_str: crate::sim::trace_to_string(&tr) })
+    Ok(Exec { ins, simple, qdelay, decisions, press_outputs, press_inputs, trace_str: crate::sim::trace_to_string(&tr) })
 }
 
 fn sched_to_hist(sched: &[(u32, Ev)]) -> Vec<Ev> {
@@ -414,6 +433,21 @@ fn check(spec: &Spec, cfg: &str, sched: &[(u32, Ev)], first_new: usize, st: &mut
             let d = ex.decisions.iter().filter(|d| d.2 == 0).nth(di).copied();
             di += 1;
             if !ex.simple[i] {
+                // queued behind plain-key events only: the decision KIND is still determined (arrival-based
+                // timeout); the tick is not pinned here
+                if let Some(q) = ex.qdelay.get(i).copied().flatten() {
+                    // (plain tap-hold only: for the early-trigger variants, keys that are down or queued ahead
+                    // of the press interact with the triggers in ways config.adoc does not pin)
+                    if q + 1 < spec.h as u64 && spec.variant == Variant::Default {
+                        if let (Some((kinds, _)), Some((dt, dk, _))) = (expected_q(spec, &ex.ins, i, q), d) {
+                            st.count("presses_T_kind_checked_behind_queue", 1);
+                            if kinds.len() == 1 && !kinds.contains(&dk) {
+                                return Some((format!("T::kind-queued::{:?}-instead-of-{:?}", dk, kinds[0]), format!("press #{di} of a (arrival t={}, {q} plain-key event(s) ahead of it in the queue): spec {:?}, real {:?} at {dt}; trace [{}]", e.t, kinds, dk, ex.trace_str)));
+                            }
+                        }
+                        continue;
+                    }
+                }
                 st.count("presses_not_simple(T skipped)", 1);
                 continue;
             }
